@@ -9,7 +9,7 @@ Step ==
       [] Ev.e = "ret" /\ Ev.op \in {"signal", "signaln"} -> Signal(Ev.n, Ev.val)
       [] Ev.e = "ret" /\ Ev.op = "wait" -> Wait(Ev.d, Ev.s, Ev.val)
       [] Ev.e = "ret" /\ Ev.op = "try" -> Try(Ev.d, Ev.s, Ev.val)
-      [] Ev.e = "end" -> Rest(Ev.blocked_req) /\ Ev.problems = 0
+      [] Ev.e = "end" -> Rest(Ev.blocked_req) /\ Ev.problems = 0 /\ (Ev.final >= 0 => Ev.final = value)
       [] Ev.e \in Ignored -> UNCHANGED vars
       [] OTHER -> FALSE
 TInit == Init /\ l = 1
